@@ -20,6 +20,7 @@ CLAIMED = {
  "C10": ("exploration", "4 C10", "seeded search over redirect chains x body kinds x forward-proxy worlds in which proxy applicability changes between hops; every hop's bytes pass the C07 oracle, cross-hop equality for 307/308, dialled peer per hop."),
  "C11": ("exploration", "4 C11 / 5", "configuration sampling against a reference matcher, with the simulator owning the process environment (guarded env seam) and observing which peer send() dials. There is no schedule, clock or fault in this property; this is stated in DESIGN.md and the check is claimed as seeded exploration of configurations only."),
  "C13": ("exploration", "4 C13", "the central simulation target: production connect_tcp/watchdog/read_timeout()/send() loop over simulated socket, channel, thread and virtual clock; seeded search over stall/drip phases x T/R x caller read histories x thread interleavings at every primitive; zero-margin virtual-time bounds, no-false-timeout, cut-body-never-complete and thread/socket census oracles."),
+ "C14": ("exploration", "4 C14", "the finite matrix (cert chain kind x name x flags x root x route x flag placement = 576 cells) is walked completely by run index against rustls ServerConnection peers inside the simulated multi-party world, for both TLS back ends (two builds); reported as exploration because nothing beyond the matrix (schedules, faults) is searched - evidence marks the matrix as exhaustive. No schedule or fault decides this property; said so in DESIGN.md."),
  "C15": ("exploration", "4 C15", "seeded forms (adversarial data, sizes covering residues of the 8 KiB copy buffer) transferred under short-write/EINTR schedules; the de-chunked body is decoded by an independent multipart decoder. Mostly an input property; said so."),
  "C17": ("exploration", "4 C17", "production happy::connect (threads, channel, recv_timeout, drain loop) over simulated resolver/sockets/clock; seeded search over address lists x accept/refuse/black-hole latencies x deadlines x thread interleavings; oracles on observables: start order and race-interval gaps (both bounds), success iff, winner accepted, time-to-success bound, error provenance, termination."),
  "C18": ("exploration", "4 C18", "bodies in 38 charsets (valid, truncated, damaged, random) x Content-Type/default-charset precedence x text APIs; the schedule-dependent half - text_reader equals whole-body decoding for every delivery split, chunking and caller read size down to 1 byte - is what the simulator decides; selection itself is a pure function (stated)."),
